@@ -50,9 +50,9 @@ MANIFEST = {
         text=_SCOPE + "Proved with arbitrary per-sink lists of throwing write and flush calls: C10_conservation_under_faults, C10_pop_on_every_path (the processed event leaves the transit buffer whether or not an exception escapes, other contexts untouched), C10_process_makes_progress, C10_write_fault_local / C10_process_event_local (only the sinks after the first throwing accepting sink miss that one statement; queues, buffers, other statements, configuration untouched), C10_fault_schedule_constant, C10_at_most_once_under_faults, C10_flush_visits_every_sink, C10_flush_fault_loses_nothing, C10_flush_flag_raised, C10_backtrace_without_init. Formatter exceptions (std and non-std, finding F4, repaired) are an extraction obligation here (catch-all next to the std::exception handler) and are exercised on the real formatter by C04's harness; libfmt itself is not modelled.",
         note=_COMMON_NOTE, ref="§5 C10, §7 F4, §9.1"),
     "C16": dict(
-        technique="Lean 4 proof: decision-logic and dispatch theorems on the backend model (enqueue and argument evaluation iff level >= logger level at the call; written to sink i iff level >= that sink's level and every filter accepts, independent of the other sinks; the statement's own static or dynamic level travels with it) + level-table obligations extracted from LogLevel.h; differential correspondence with per-sink recording and argument-evaluation counters, level changes interleaved",
-        text=_SCOPE + "Proved: C16_shouldLog_iff (the frontend test is logger level <= statement level), C16_below_level_nothing (below the level nothing changes but the id counter: no evaluation, no enqueue), C16_at_level_enqueued (the record carries exactly the level passed, static or dynamic; parked, appended, or refused and counted), C16_sinks_exact / C16_sink_iff (the events of a dispatch are exactly one write per accepting sink, in list order, with the statement's own id, level and timestamp), C16_sink_independent (other sinks' levels and filters do not matter), C16_sink_prefix (a throwing sink cuts off only the sinks after it), C16_level_reported, C16_process_is_dispatch; obligations level_order / level_ranks / level_compare_is_rank_compare on the extracted enum. Tie: the H2 harness uses the real LOG_* macros (static levels) and the dynamic-level call with side-effect counters in the arguments, sink level filters and filters, level changes interleaved (also injected inside polls), against the model, plus an oracle on every recorded sink call. Concurrent add_filter against the backend's filter snapshot is covered by a separate stream when present (Filt bundle); with the sequential scheduler it cannot be produced.",
-        note=_COMMON_NOTE + " Override pattern formatters per sink are covered by C12.", ref="§5 C16, §9.1"),
+        technique="Lean 4 proof: decision-logic and dispatch theorems on the backend model (enqueue and argument evaluation iff level >= logger level at the call; written to sink i iff level >= that sink's level and every filter accepts, independent of the other sinks; the statement's own static or dynamic level travels with it) + level-table obligations extracted from LogLevel.h; differential correspondence with per-sink recording and argument-evaluation counters, level changes interleaved; invariant over all schedules and stale relaxed loads of add_filter / set_log_level_filter against apply_all_filters under a release/acquire view semantics (the proved spinlock model inside), tied by structural extraction and an N-thread atomic-shim harness with real lock contention",
+        text=_SCOPE + "Proved: C16_shouldLog_iff (the frontend test is logger level <= statement level), C16_below_level_nothing (below the level nothing changes but the id counter: no evaluation, no enqueue), C16_at_level_enqueued (the record carries exactly the level passed, static or dynamic; parked, appended, or refused and counted), C16_sinks_exact / C16_sink_iff (the events of a dispatch are exactly one write per accepting sink, in list order, with the statement's own id, level and timestamp), C16_sink_independent (other sinks' levels and filters do not matter), C16_sink_prefix (a throwing sink cuts off only the sinks after it), C16_level_reported, C16_process_is_dispatch; obligations level_order / level_ranks / level_compare_is_rank_compare on the extracted enum. Tie: the H2 harness uses the real LOG_* macros (static levels) and the dynamic-level call with side-effect counters in the arguments, sink level filters and filters, level changes interleaved (also injected inside polls), against the model, plus an oracle on every recorded sink call. Concurrent add_filter against the backend's filter snapshot is covered by a separate stream when present (Filt bundle); with the sequential scheduler it cannot be produced. Concurrency of Sink::add_filter with the backend's apply_all_filters (relaxed _new_filter flag, spinlock, _local_filters copy): C16_filter_lock_exclusive and C16_filter_visibility prove for every number of threads, schedule and stale-load choice that the copy is race-free and that every evaluation consults a filter list containing every filter whose add_filter returned happens-before the evaluation and only filters whose add_filter had begun (negative witnesses: try_lock-and-evaluate-anyway leaks, relaxed lock races, and the run showing why the happens-before premise is needed); tied to the code by extraction of the two functions' structure and by running the real Sink compiled against an N-thread atomic shim under thousands of generated schedules (every atomic access a scheduling point) against the model and a DONE/STARTED oracle.",
+        note=_COMMON_NOTE + " Override pattern formatters per sink are covered by C12. Filter concurrency: DONE is defined by happens-before (queue publication / lock), not wall-clock, because _new_filter is relaxed; there is no remove_filter in the API.", ref="§5 C16, §9.1"),
     "C17": dict(
         technique="Lean 4 proof: logger/sink life-cycle invariant on the backend model for every schedule incl. frontend steps inside a sink destructor (site 9): an erased logger has no record left in any queue or buffer, the erase rests on the per-logger emptiness check of the current state (negative witness for a hoisted check), a dead sink is unreferenced and never used after its destructor, create/remove contracts; the registries' spinlock proved under the release/acquire view semantics; differential correspondence incl. remove_logger_blocking, re-creation, sink destruction under ASan",
         text=_SCOPE + "Proved: C17_erased_logger_has_no_record (no record of an erased logger sits in any queue or transit buffer and every parked call's logger is valid and not erased — so statements logged before the removal are all popped, hence dispatched by C03, before the erase), C17_erase_only_when_drained, C17_erase_step_guarded (the erase uses allEmpty of the CURRENT state; with site 9 a logger may get a statement and be removed while an earlier logger's sink is being destroyed), C17_hoisted_check_erases_queued_logger (decide +kernel: with the check hoisted out of the loop that logger is erased with its statement queued), C17_dead_sink_unreferenced (a sink is destroyed only when the user dropped it and no un-erased logger holds it; sinks of un-erased loggers are alive), C17_no_use_after_dtor / C17_alive_sink_no_dtor (no write or flush of a sink after its destructor in the event log), C17_parked_removal_exclusive, C17_create_returns_existing / _fresh_object / _waits_for_erase (idempotent lookup; a name is re-created with new sinks only after the old object was erased), C17_remove_busy_noop; Spin.C17_spinlock_safe (mutual exclusion and visibility of the registries' lock for the extracted memory orders, every schedule and stale-load choice; witnesses for relaxed exchange/unlock). PARTIAL: 'remove_logger_blocking returns only after the removal completed' is proved per clean-up pass (C17_removal_flag_after_erase_partial: a removal flag is raised only for a name whose object was erased in that pass, and the caller waits on the flag, C17_flag_wait); the global statement needs uniqueness of flag numbers across all statements.",
@@ -273,6 +273,111 @@ def collect(ck, tier, ex):
     return res
 
 
+FILT_TAG = "#!filt"
+
+
+def filt_params_line(ex):
+    f = ex.get("filt", {})
+    return "params xchg=%s unl=%s rbc=%d try=%d" % (f.get("xchg", "seq_cst"), f.get("unl", "seq_cst"),
+                                                    1 if f.get("resetBeforeCopy") else 0, 1 if f.get("tryLock") else 0)
+
+
+def filt_trace_block(out, tid):
+    """the lines of trace `tid` in a harness output: (description lines for a replay, all lines for the reader)"""
+    desc, allv, on = [], [], False
+    for l in out.split("\n"):
+        if l.startswith("init "):
+            on = l.split()[1] == tid
+        if on:
+            allv.append(l)
+            if l.startswith(("init ", "prog ", "sched ")):
+                desc.append(l)
+            if l.startswith("end "):
+                break
+    return desc, allv
+
+
+def filter_stream(ck, tier, ex, ps):
+    """C16, concurrency part: the real Sink::add_filter / set_log_level_filter / apply_all_filters under the N-thread atomic
+    shim with generated schedules (real lock contention, stale relaxed loads) — property oracle on the real code, every step
+    replayed on the Lean model (`driver filt trace`), run-time memory orders cross-checked against the extraction."""
+    import time
+    t0 = time.time()
+    okf, fbin, flog = vlib.build_harness("h1_filters", ["h1_filters.cpp"], extra_flags=["-fno-access-control"])
+    if not okf:
+        ck.violation("harness_build_filters", flog, "harness h1_filters no longer compiles against the current tree (correspondence of the "
+                     "filter-concurrency model broken): " + flog[-300:], no_input=True)
+        return {"build": "failed"}
+    nproc, ntr, nst = (3, 800, 36) if tier == "quick" else (6, 8000, 48)
+    cmds = [[fbin, "gen", str(ck.seed * 1000 + i), str(ntr), str(nst), "p%d" % i] for i in range(nproc)]
+    with ThreadPoolExecutor(max_workers=nproc) as pool:
+        runs = list(pool.map(lambda c: vlib.sh(c, env=vlib.ASAN_ENV, timeout=1800), cmds))
+    pline = filt_params_line(ex)
+    rcd, dout = vlib.driver(["filt", "trace"], stdin_data=("\n".join([pline] + [o for _, o in runs])).encode(), timeout=1800)
+    mm = [l for l in dout.split("\n") if l.startswith("MISMATCH")]
+    mv = [l for l in dout.split("\n") if l.startswith("MODEL-VIOLATION")]
+    done = [l for l in dout.split("\n") if l.startswith("DONE")]
+    stats, seen, oracle, aborted = {}, {}, [], []
+    for (rc, out), cmd in zip(runs, cmds):
+        for l in out.split("\n"):
+            if l.startswith("ORACLE"):
+                oracle.append((l, out, cmd))
+            elif l.startswith("STATS"):
+                for kv in l.split()[1:]:
+                    k, v = kv.split("=")
+                    stats[k] = stats.get(k, 0) + int(v)
+            elif l.startswith("ORDERS-SEEN"):
+                for kv in l.split()[1:]:
+                    k, v = kv.split("=")
+                    seen[k] = v if seen.get(k, v) == v else "mixed"
+        if rc not in (0, 3):
+            aborted.append((rc, out, cmd))
+    info = {"processes": nproc, "traces_per_process": ntr, "steps": nst, "stats": stats, "orders_seen": seen,
+            "oracle_hits": len(oracle), "aborts": len(aborted), "driver": done[:1], "mismatches": len(mm),
+            "model_violations": len(mv), "params": pline, "wall_s": round(time.time() - t0, 1),
+            "rule": "one trace = programs of 1-3 frontend threads (add_filter / set_log_level_filter / log) and a backend polling "
+                    "them, under one schedule (sticky random walk or priority schedule with 1-3 change points, stale choices for the "
+                    "relaxed loads) + 8 directed windows; non-trivial iff it has an evaluation, an observed busy lock and a re-copy "
+                    "after the first evaluation or a stale load"}
+    if oracle:
+        l, out, cmd = oracle[0]
+        m0 = re.search(r"trace=(\S+)", l)
+        desc, allv = filt_trace_block(out, m0.group(1)) if m0 else ([], [])
+        if not any(x.startswith("sched ") for x in desc):
+            desc = []
+        head = "%s %s\n# %s\n# replay: python3 tools/check.py %s --replay <this file>\n" % (
+            FILT_TAG, "replay" if desc else "gen " + " ".join(cmd[2:]), l, prop_of(ck))
+        body = "\n".join(desc) + "\n# ---- the schedule as executed on the real code (thread, access, observation) ----\n# " + "\n# ".join(allv) + "\n"
+        ck.violation("filters", head + body,
+                     "property fails on the real code under a concurrent schedule (h1_filters, %d oracle hits): %s" % (len(oracle), l[:400]))
+    elif aborted:
+        rc, out, cmd = aborted[0]
+        ck.violation("filters_abort", "%s gen %s\n# harness h1_filters aborted rc=%d (sanitizer / crash / non-termination in the real code)\n# %s\n" % (
+            FILT_TAG, " ".join(cmd[2:]), rc, out[-3000:].replace("\n", "\n# ")),
+            "the real filter code aborted under the atomic-shim scheduler (rc=%d): %s" % (rc, out.strip().split("\n")[-1][:200]))
+    elif mm or rcd not in (0, 1) or not done:
+        l = (mm or ["driver filt trace failed rc=%d: %s" % (rcd, dout[-300:])])[0]
+        m0 = re.search(r"trace=(\S+)", l)
+        desc, allv = [], []
+        for _, out in runs:
+            if m0 and not desc:
+                desc, allv = filt_trace_block(out, m0.group(1))
+        ck.violation("filters_correspondence", "%s replay\n# correspondence stream `filt` disagrees: %s\n%s\n# ---- harness lines ----\n# %s\n" % (
+            FILT_TAG, l, "\n".join(desc), "\n# ".join(allv)),
+            "filter-concurrency model and implementation disagree (%d lines), no property oracle fired: %s" % (len(mm), l[:300]), no_input=True)
+    exf = ex.get("filt", {})
+    want = {"lock.xchg": exf.get("xchg"), "lock.store": exf.get("unl"), "newf.set": exf.get("flagSet"), "newf.reset": exf.get("flagReset"),
+            "newf.load": exf.get("flagLoad"), "lvl.store": exf.get("lvlStore"), "lvl.load": exf.get("lvlLoad")}
+    bad = {k: (v, seen.get(k)) for k, v in want.items() if k in seen and v is not None and seen[k] != v}
+    if bad and not oracle and not aborted:
+        ps["broken"].append("extraction disagrees with the run-time memory orders of the filter code (extracted, observed): %s" % bad)
+    return info
+
+
+def prop_of(ck):
+    return ck.prop
+
+
 def run(prop, tier):
     ck = vlib.Check(prop, tier, level="proof" if THEOREMS[prop] else "exploration")
     ck.assumptions = [
@@ -352,6 +457,10 @@ def run(prop, tier):
             elif seen and ((seen.get("xchg") not in ("-", exs.get("xchg"))) or (seen.get("unlock") not in ("-", exs.get("unl")))):
                 ps["broken"].append("extraction disagrees with the run-time orders of the spinlock: extracted %s, observed %s" % (exs, seen))
 
+    filt = None
+    if prop == "C16":
+        filt = filter_stream(ck, tier, ex, ps)
+
     mine_or = [o for o in res["oracle"] if o["prop"] == prop]
     mine_mm = [m for m in res["mismatches"] if prop in m["props"]]
     if res["aborts"]:
@@ -404,10 +513,36 @@ def run(prop, tier):
         ck.cov["transit_buffer_stream"] = transit
     if spin is not None:
         ck.cov["spinlock_stream"] = spin
+    if filt is not None:
+        ck.cov["filter_stream"] = filt
     return ck.finish()
 
 
+def replay_filt(prop, path, first):
+    okf, fbin, flog = vlib.build_harness("h1_filters", ["h1_filters.cpp"], extra_flags=["-fno-access-control"])
+    if not okf:
+        print(flog)
+        return 2
+    ex = vlib.run_extract()
+    vlib.lake_build(["driver"])
+    w = first.split()
+    cmd = [fbin, "gen"] + w[2:] if len(w) > 2 and w[1] == "gen" else [fbin, "replay", path]
+    rc, out = vlib.sh(cmd, env=vlib.ASAN_ENV, timeout=1800)
+    orc = [l for l in out.split("\n") if l.startswith("ORACLE")]
+    if len(out) < 200000:
+        print(out)
+    else:
+        print("\n".join(orc[:20]))
+        print(out[-3000:])
+    rc2, dout = vlib.driver(["filt", "trace"], stdin_data=(filt_params_line(ex) + "\n" + out).encode())
+    print("\n".join(l for l in dout.split("\n") if not l.startswith("TRACE")) if len(dout) > 20000 else dout)
+    return 1 if rc != 0 or orc else 0
+
+
 def replay(prop, path):
+    first = open(path).readline().strip()
+    if first.startswith(FILT_TAG):
+        return replay_filt(prop, path, first)
     lines = [l.rstrip("\n") for l in open(path) if l.strip() and not l.startswith("#")]
     v = 1 if re.search(r"\.v1\.|variant=1|v1_", path + " ".join(lines[:2])) else 0
     ok, hbin, log = vlib.build_harness("h2_v%d" % v, ["h2_backend.cpp"], extra_flags=["-fno-access-control", "-DH2_VARIANT=%d" % v])
